@@ -141,7 +141,9 @@ Inductive exn := ExDisconnected | ExException.
 
 Inductive oev :=
 | WHttp                                   (* opening-handshake octets (request / response / HTTP error) *)
-| WData                                   (* a data frame *)
+| WData                                   (* a complete data frame (text, binary or continuation) *)
+| WHdr                                    (* beginMessageFrame: the header of a streaming data frame *)
+| WPayload (n : N)                        (* sendMessageFrameData: n payload octets of it *)
 | WPing (auto : option N)                 (* ping frame; Some seq = automatic ping number seq *)
 | WPong
 | WClose (o : corigin) (code : option N) (reason : option (list N))
@@ -158,6 +160,10 @@ Definition out := (N * oev)%type.           (* stamped with the virtual time *)
    PC1 = a close frame with a 1-octet payload (rejected at the header, then seen as empty by onCloseFrame).
    The ghost field lastPeerClose records the last close frame that reached onCloseFrame. *)
 Inductive peer_close := PC (body : option (N * option (list N))) | PC1.
+
+(* streaming send API: SEND_STATE_GROUND / MESSAGE_BEGIN / INSIDE_MESSAGE.  (INSIDE_MESSAGE_FRAME only arises through
+   beginMessageFrame + sendMessageFrameData used separately: implementation-side oracle family only) *)
+Inductive sstate := SGround | SBegin | SInside.
 
 Record cstate := mkS {
   st : wstate;
@@ -186,63 +192,72 @@ Record cstate := mkS {
   pingSeq : N;
   closingSince : option N;
   lastPeerClose : option peer_close;
-  proxyPending : bool
+  proxyPending : bool;
+  sst : sstate;
+  inMsg : bool;
+  rxPartial : bool
 }.
 
 Definition set_st (v : wstate) (s : cstate) : cstate :=
-  mkS v (now s) (gone s) (closedByMe s) (failedByMe s) (droppedByMe s) (wasClean s) (ncr s) (localCode s) (localReason s) (remoteCode s) (remoteReason s) (wasOpenTO s) (wasCloseTO s) (wasDropTO s) (hOpen s) (hClose s) (hDrop s) (hPing s) (hPingTO s) (nextId s) (timers s) (pingPending s) (pingSeq s) (closingSince s) (lastPeerClose s) (proxyPending s).
+  mkS v (now s) (gone s) (closedByMe s) (failedByMe s) (droppedByMe s) (wasClean s) (ncr s) (localCode s) (localReason s) (remoteCode s) (remoteReason s) (wasOpenTO s) (wasCloseTO s) (wasDropTO s) (hOpen s) (hClose s) (hDrop s) (hPing s) (hPingTO s) (nextId s) (timers s) (pingPending s) (pingSeq s) (closingSince s) (lastPeerClose s) (proxyPending s) (sst s) (inMsg s) (rxPartial s).
 Definition set_now (v : N) (s : cstate) : cstate :=
-  mkS (st s) v (gone s) (closedByMe s) (failedByMe s) (droppedByMe s) (wasClean s) (ncr s) (localCode s) (localReason s) (remoteCode s) (remoteReason s) (wasOpenTO s) (wasCloseTO s) (wasDropTO s) (hOpen s) (hClose s) (hDrop s) (hPing s) (hPingTO s) (nextId s) (timers s) (pingPending s) (pingSeq s) (closingSince s) (lastPeerClose s) (proxyPending s).
+  mkS (st s) v (gone s) (closedByMe s) (failedByMe s) (droppedByMe s) (wasClean s) (ncr s) (localCode s) (localReason s) (remoteCode s) (remoteReason s) (wasOpenTO s) (wasCloseTO s) (wasDropTO s) (hOpen s) (hClose s) (hDrop s) (hPing s) (hPingTO s) (nextId s) (timers s) (pingPending s) (pingSeq s) (closingSince s) (lastPeerClose s) (proxyPending s) (sst s) (inMsg s) (rxPartial s).
 Definition set_gone (v : bool) (s : cstate) : cstate :=
-  mkS (st s) (now s) v (closedByMe s) (failedByMe s) (droppedByMe s) (wasClean s) (ncr s) (localCode s) (localReason s) (remoteCode s) (remoteReason s) (wasOpenTO s) (wasCloseTO s) (wasDropTO s) (hOpen s) (hClose s) (hDrop s) (hPing s) (hPingTO s) (nextId s) (timers s) (pingPending s) (pingSeq s) (closingSince s) (lastPeerClose s) (proxyPending s).
+  mkS (st s) (now s) v (closedByMe s) (failedByMe s) (droppedByMe s) (wasClean s) (ncr s) (localCode s) (localReason s) (remoteCode s) (remoteReason s) (wasOpenTO s) (wasCloseTO s) (wasDropTO s) (hOpen s) (hClose s) (hDrop s) (hPing s) (hPingTO s) (nextId s) (timers s) (pingPending s) (pingSeq s) (closingSince s) (lastPeerClose s) (proxyPending s) (sst s) (inMsg s) (rxPartial s).
 Definition set_closedByMe (v : bool) (s : cstate) : cstate :=
-  mkS (st s) (now s) (gone s) v (failedByMe s) (droppedByMe s) (wasClean s) (ncr s) (localCode s) (localReason s) (remoteCode s) (remoteReason s) (wasOpenTO s) (wasCloseTO s) (wasDropTO s) (hOpen s) (hClose s) (hDrop s) (hPing s) (hPingTO s) (nextId s) (timers s) (pingPending s) (pingSeq s) (closingSince s) (lastPeerClose s) (proxyPending s).
+  mkS (st s) (now s) (gone s) v (failedByMe s) (droppedByMe s) (wasClean s) (ncr s) (localCode s) (localReason s) (remoteCode s) (remoteReason s) (wasOpenTO s) (wasCloseTO s) (wasDropTO s) (hOpen s) (hClose s) (hDrop s) (hPing s) (hPingTO s) (nextId s) (timers s) (pingPending s) (pingSeq s) (closingSince s) (lastPeerClose s) (proxyPending s) (sst s) (inMsg s) (rxPartial s).
 Definition set_failedByMe (v : bool) (s : cstate) : cstate :=
-  mkS (st s) (now s) (gone s) (closedByMe s) v (droppedByMe s) (wasClean s) (ncr s) (localCode s) (localReason s) (remoteCode s) (remoteReason s) (wasOpenTO s) (wasCloseTO s) (wasDropTO s) (hOpen s) (hClose s) (hDrop s) (hPing s) (hPingTO s) (nextId s) (timers s) (pingPending s) (pingSeq s) (closingSince s) (lastPeerClose s) (proxyPending s).
+  mkS (st s) (now s) (gone s) (closedByMe s) v (droppedByMe s) (wasClean s) (ncr s) (localCode s) (localReason s) (remoteCode s) (remoteReason s) (wasOpenTO s) (wasCloseTO s) (wasDropTO s) (hOpen s) (hClose s) (hDrop s) (hPing s) (hPingTO s) (nextId s) (timers s) (pingPending s) (pingSeq s) (closingSince s) (lastPeerClose s) (proxyPending s) (sst s) (inMsg s) (rxPartial s).
 Definition set_droppedByMe (v : bool) (s : cstate) : cstate :=
-  mkS (st s) (now s) (gone s) (closedByMe s) (failedByMe s) v (wasClean s) (ncr s) (localCode s) (localReason s) (remoteCode s) (remoteReason s) (wasOpenTO s) (wasCloseTO s) (wasDropTO s) (hOpen s) (hClose s) (hDrop s) (hPing s) (hPingTO s) (nextId s) (timers s) (pingPending s) (pingSeq s) (closingSince s) (lastPeerClose s) (proxyPending s).
+  mkS (st s) (now s) (gone s) (closedByMe s) (failedByMe s) v (wasClean s) (ncr s) (localCode s) (localReason s) (remoteCode s) (remoteReason s) (wasOpenTO s) (wasCloseTO s) (wasDropTO s) (hOpen s) (hClose s) (hDrop s) (hPing s) (hPingTO s) (nextId s) (timers s) (pingPending s) (pingSeq s) (closingSince s) (lastPeerClose s) (proxyPending s) (sst s) (inMsg s) (rxPartial s).
 Definition set_wasClean (v : bool) (s : cstate) : cstate :=
-  mkS (st s) (now s) (gone s) (closedByMe s) (failedByMe s) (droppedByMe s) v (ncr s) (localCode s) (localReason s) (remoteCode s) (remoteReason s) (wasOpenTO s) (wasCloseTO s) (wasDropTO s) (hOpen s) (hClose s) (hDrop s) (hPing s) (hPingTO s) (nextId s) (timers s) (pingPending s) (pingSeq s) (closingSince s) (lastPeerClose s) (proxyPending s).
+  mkS (st s) (now s) (gone s) (closedByMe s) (failedByMe s) (droppedByMe s) v (ncr s) (localCode s) (localReason s) (remoteCode s) (remoteReason s) (wasOpenTO s) (wasCloseTO s) (wasDropTO s) (hOpen s) (hClose s) (hDrop s) (hPing s) (hPingTO s) (nextId s) (timers s) (pingPending s) (pingSeq s) (closingSince s) (lastPeerClose s) (proxyPending s) (sst s) (inMsg s) (rxPartial s).
 Definition set_ncr (v : nreason) (s : cstate) : cstate :=
-  mkS (st s) (now s) (gone s) (closedByMe s) (failedByMe s) (droppedByMe s) (wasClean s) v (localCode s) (localReason s) (remoteCode s) (remoteReason s) (wasOpenTO s) (wasCloseTO s) (wasDropTO s) (hOpen s) (hClose s) (hDrop s) (hPing s) (hPingTO s) (nextId s) (timers s) (pingPending s) (pingSeq s) (closingSince s) (lastPeerClose s) (proxyPending s).
+  mkS (st s) (now s) (gone s) (closedByMe s) (failedByMe s) (droppedByMe s) (wasClean s) v (localCode s) (localReason s) (remoteCode s) (remoteReason s) (wasOpenTO s) (wasCloseTO s) (wasDropTO s) (hOpen s) (hClose s) (hDrop s) (hPing s) (hPingTO s) (nextId s) (timers s) (pingPending s) (pingSeq s) (closingSince s) (lastPeerClose s) (proxyPending s) (sst s) (inMsg s) (rxPartial s).
 Definition set_localCode (v : option N) (s : cstate) : cstate :=
-  mkS (st s) (now s) (gone s) (closedByMe s) (failedByMe s) (droppedByMe s) (wasClean s) (ncr s) v (localReason s) (remoteCode s) (remoteReason s) (wasOpenTO s) (wasCloseTO s) (wasDropTO s) (hOpen s) (hClose s) (hDrop s) (hPing s) (hPingTO s) (nextId s) (timers s) (pingPending s) (pingSeq s) (closingSince s) (lastPeerClose s) (proxyPending s).
+  mkS (st s) (now s) (gone s) (closedByMe s) (failedByMe s) (droppedByMe s) (wasClean s) (ncr s) v (localReason s) (remoteCode s) (remoteReason s) (wasOpenTO s) (wasCloseTO s) (wasDropTO s) (hOpen s) (hClose s) (hDrop s) (hPing s) (hPingTO s) (nextId s) (timers s) (pingPending s) (pingSeq s) (closingSince s) (lastPeerClose s) (proxyPending s) (sst s) (inMsg s) (rxPartial s).
 Definition set_localReason (v : option (list N)) (s : cstate) : cstate :=
-  mkS (st s) (now s) (gone s) (closedByMe s) (failedByMe s) (droppedByMe s) (wasClean s) (ncr s) (localCode s) v (remoteCode s) (remoteReason s) (wasOpenTO s) (wasCloseTO s) (wasDropTO s) (hOpen s) (hClose s) (hDrop s) (hPing s) (hPingTO s) (nextId s) (timers s) (pingPending s) (pingSeq s) (closingSince s) (lastPeerClose s) (proxyPending s).
+  mkS (st s) (now s) (gone s) (closedByMe s) (failedByMe s) (droppedByMe s) (wasClean s) (ncr s) (localCode s) v (remoteCode s) (remoteReason s) (wasOpenTO s) (wasCloseTO s) (wasDropTO s) (hOpen s) (hClose s) (hDrop s) (hPing s) (hPingTO s) (nextId s) (timers s) (pingPending s) (pingSeq s) (closingSince s) (lastPeerClose s) (proxyPending s) (sst s) (inMsg s) (rxPartial s).
 Definition set_remoteCode (v : option N) (s : cstate) : cstate :=
-  mkS (st s) (now s) (gone s) (closedByMe s) (failedByMe s) (droppedByMe s) (wasClean s) (ncr s) (localCode s) (localReason s) v (remoteReason s) (wasOpenTO s) (wasCloseTO s) (wasDropTO s) (hOpen s) (hClose s) (hDrop s) (hPing s) (hPingTO s) (nextId s) (timers s) (pingPending s) (pingSeq s) (closingSince s) (lastPeerClose s) (proxyPending s).
+  mkS (st s) (now s) (gone s) (closedByMe s) (failedByMe s) (droppedByMe s) (wasClean s) (ncr s) (localCode s) (localReason s) v (remoteReason s) (wasOpenTO s) (wasCloseTO s) (wasDropTO s) (hOpen s) (hClose s) (hDrop s) (hPing s) (hPingTO s) (nextId s) (timers s) (pingPending s) (pingSeq s) (closingSince s) (lastPeerClose s) (proxyPending s) (sst s) (inMsg s) (rxPartial s).
 Definition set_remoteReason (v : option (list N)) (s : cstate) : cstate :=
-  mkS (st s) (now s) (gone s) (closedByMe s) (failedByMe s) (droppedByMe s) (wasClean s) (ncr s) (localCode s) (localReason s) (remoteCode s) v (wasOpenTO s) (wasCloseTO s) (wasDropTO s) (hOpen s) (hClose s) (hDrop s) (hPing s) (hPingTO s) (nextId s) (timers s) (pingPending s) (pingSeq s) (closingSince s) (lastPeerClose s) (proxyPending s).
+  mkS (st s) (now s) (gone s) (closedByMe s) (failedByMe s) (droppedByMe s) (wasClean s) (ncr s) (localCode s) (localReason s) (remoteCode s) v (wasOpenTO s) (wasCloseTO s) (wasDropTO s) (hOpen s) (hClose s) (hDrop s) (hPing s) (hPingTO s) (nextId s) (timers s) (pingPending s) (pingSeq s) (closingSince s) (lastPeerClose s) (proxyPending s) (sst s) (inMsg s) (rxPartial s).
 Definition set_wasOpenTO (v : bool) (s : cstate) : cstate :=
-  mkS (st s) (now s) (gone s) (closedByMe s) (failedByMe s) (droppedByMe s) (wasClean s) (ncr s) (localCode s) (localReason s) (remoteCode s) (remoteReason s) v (wasCloseTO s) (wasDropTO s) (hOpen s) (hClose s) (hDrop s) (hPing s) (hPingTO s) (nextId s) (timers s) (pingPending s) (pingSeq s) (closingSince s) (lastPeerClose s) (proxyPending s).
+  mkS (st s) (now s) (gone s) (closedByMe s) (failedByMe s) (droppedByMe s) (wasClean s) (ncr s) (localCode s) (localReason s) (remoteCode s) (remoteReason s) v (wasCloseTO s) (wasDropTO s) (hOpen s) (hClose s) (hDrop s) (hPing s) (hPingTO s) (nextId s) (timers s) (pingPending s) (pingSeq s) (closingSince s) (lastPeerClose s) (proxyPending s) (sst s) (inMsg s) (rxPartial s).
 Definition set_wasCloseTO (v : bool) (s : cstate) : cstate :=
-  mkS (st s) (now s) (gone s) (closedByMe s) (failedByMe s) (droppedByMe s) (wasClean s) (ncr s) (localCode s) (localReason s) (remoteCode s) (remoteReason s) (wasOpenTO s) v (wasDropTO s) (hOpen s) (hClose s) (hDrop s) (hPing s) (hPingTO s) (nextId s) (timers s) (pingPending s) (pingSeq s) (closingSince s) (lastPeerClose s) (proxyPending s).
+  mkS (st s) (now s) (gone s) (closedByMe s) (failedByMe s) (droppedByMe s) (wasClean s) (ncr s) (localCode s) (localReason s) (remoteCode s) (remoteReason s) (wasOpenTO s) v (wasDropTO s) (hOpen s) (hClose s) (hDrop s) (hPing s) (hPingTO s) (nextId s) (timers s) (pingPending s) (pingSeq s) (closingSince s) (lastPeerClose s) (proxyPending s) (sst s) (inMsg s) (rxPartial s).
 Definition set_wasDropTO (v : bool) (s : cstate) : cstate :=
-  mkS (st s) (now s) (gone s) (closedByMe s) (failedByMe s) (droppedByMe s) (wasClean s) (ncr s) (localCode s) (localReason s) (remoteCode s) (remoteReason s) (wasOpenTO s) (wasCloseTO s) v (hOpen s) (hClose s) (hDrop s) (hPing s) (hPingTO s) (nextId s) (timers s) (pingPending s) (pingSeq s) (closingSince s) (lastPeerClose s) (proxyPending s).
+  mkS (st s) (now s) (gone s) (closedByMe s) (failedByMe s) (droppedByMe s) (wasClean s) (ncr s) (localCode s) (localReason s) (remoteCode s) (remoteReason s) (wasOpenTO s) (wasCloseTO s) v (hOpen s) (hClose s) (hDrop s) (hPing s) (hPingTO s) (nextId s) (timers s) (pingPending s) (pingSeq s) (closingSince s) (lastPeerClose s) (proxyPending s) (sst s) (inMsg s) (rxPartial s).
 Definition set_hOpen (v : option N) (s : cstate) : cstate :=
-  mkS (st s) (now s) (gone s) (closedByMe s) (failedByMe s) (droppedByMe s) (wasClean s) (ncr s) (localCode s) (localReason s) (remoteCode s) (remoteReason s) (wasOpenTO s) (wasCloseTO s) (wasDropTO s) v (hClose s) (hDrop s) (hPing s) (hPingTO s) (nextId s) (timers s) (pingPending s) (pingSeq s) (closingSince s) (lastPeerClose s) (proxyPending s).
+  mkS (st s) (now s) (gone s) (closedByMe s) (failedByMe s) (droppedByMe s) (wasClean s) (ncr s) (localCode s) (localReason s) (remoteCode s) (remoteReason s) (wasOpenTO s) (wasCloseTO s) (wasDropTO s) v (hClose s) (hDrop s) (hPing s) (hPingTO s) (nextId s) (timers s) (pingPending s) (pingSeq s) (closingSince s) (lastPeerClose s) (proxyPending s) (sst s) (inMsg s) (rxPartial s).
 Definition set_hClose (v : option N) (s : cstate) : cstate :=
-  mkS (st s) (now s) (gone s) (closedByMe s) (failedByMe s) (droppedByMe s) (wasClean s) (ncr s) (localCode s) (localReason s) (remoteCode s) (remoteReason s) (wasOpenTO s) (wasCloseTO s) (wasDropTO s) (hOpen s) v (hDrop s) (hPing s) (hPingTO s) (nextId s) (timers s) (pingPending s) (pingSeq s) (closingSince s) (lastPeerClose s) (proxyPending s).
+  mkS (st s) (now s) (gone s) (closedByMe s) (failedByMe s) (droppedByMe s) (wasClean s) (ncr s) (localCode s) (localReason s) (remoteCode s) (remoteReason s) (wasOpenTO s) (wasCloseTO s) (wasDropTO s) (hOpen s) v (hDrop s) (hPing s) (hPingTO s) (nextId s) (timers s) (pingPending s) (pingSeq s) (closingSince s) (lastPeerClose s) (proxyPending s) (sst s) (inMsg s) (rxPartial s).
 Definition set_hDrop (v : option N) (s : cstate) : cstate :=
-  mkS (st s) (now s) (gone s) (closedByMe s) (failedByMe s) (droppedByMe s) (wasClean s) (ncr s) (localCode s) (localReason s) (remoteCode s) (remoteReason s) (wasOpenTO s) (wasCloseTO s) (wasDropTO s) (hOpen s) (hClose s) v (hPing s) (hPingTO s) (nextId s) (timers s) (pingPending s) (pingSeq s) (closingSince s) (lastPeerClose s) (proxyPending s).
+  mkS (st s) (now s) (gone s) (closedByMe s) (failedByMe s) (droppedByMe s) (wasClean s) (ncr s) (localCode s) (localReason s) (remoteCode s) (remoteReason s) (wasOpenTO s) (wasCloseTO s) (wasDropTO s) (hOpen s) (hClose s) v (hPing s) (hPingTO s) (nextId s) (timers s) (pingPending s) (pingSeq s) (closingSince s) (lastPeerClose s) (proxyPending s) (sst s) (inMsg s) (rxPartial s).
 Definition set_hPing (v : option N) (s : cstate) : cstate :=
-  mkS (st s) (now s) (gone s) (closedByMe s) (failedByMe s) (droppedByMe s) (wasClean s) (ncr s) (localCode s) (localReason s) (remoteCode s) (remoteReason s) (wasOpenTO s) (wasCloseTO s) (wasDropTO s) (hOpen s) (hClose s) (hDrop s) v (hPingTO s) (nextId s) (timers s) (pingPending s) (pingSeq s) (closingSince s) (lastPeerClose s) (proxyPending s).
+  mkS (st s) (now s) (gone s) (closedByMe s) (failedByMe s) (droppedByMe s) (wasClean s) (ncr s) (localCode s) (localReason s) (remoteCode s) (remoteReason s) (wasOpenTO s) (wasCloseTO s) (wasDropTO s) (hOpen s) (hClose s) (hDrop s) v (hPingTO s) (nextId s) (timers s) (pingPending s) (pingSeq s) (closingSince s) (lastPeerClose s) (proxyPending s) (sst s) (inMsg s) (rxPartial s).
 Definition set_hPingTO (v : option N) (s : cstate) : cstate :=
-  mkS (st s) (now s) (gone s) (closedByMe s) (failedByMe s) (droppedByMe s) (wasClean s) (ncr s) (localCode s) (localReason s) (remoteCode s) (remoteReason s) (wasOpenTO s) (wasCloseTO s) (wasDropTO s) (hOpen s) (hClose s) (hDrop s) (hPing s) v (nextId s) (timers s) (pingPending s) (pingSeq s) (closingSince s) (lastPeerClose s) (proxyPending s).
+  mkS (st s) (now s) (gone s) (closedByMe s) (failedByMe s) (droppedByMe s) (wasClean s) (ncr s) (localCode s) (localReason s) (remoteCode s) (remoteReason s) (wasOpenTO s) (wasCloseTO s) (wasDropTO s) (hOpen s) (hClose s) (hDrop s) (hPing s) v (nextId s) (timers s) (pingPending s) (pingSeq s) (closingSince s) (lastPeerClose s) (proxyPending s) (sst s) (inMsg s) (rxPartial s).
 Definition set_nextId (v : N) (s : cstate) : cstate :=
-  mkS (st s) (now s) (gone s) (closedByMe s) (failedByMe s) (droppedByMe s) (wasClean s) (ncr s) (localCode s) (localReason s) (remoteCode s) (remoteReason s) (wasOpenTO s) (wasCloseTO s) (wasDropTO s) (hOpen s) (hClose s) (hDrop s) (hPing s) (hPingTO s) v (timers s) (pingPending s) (pingSeq s) (closingSince s) (lastPeerClose s) (proxyPending s).
+  mkS (st s) (now s) (gone s) (closedByMe s) (failedByMe s) (droppedByMe s) (wasClean s) (ncr s) (localCode s) (localReason s) (remoteCode s) (remoteReason s) (wasOpenTO s) (wasCloseTO s) (wasDropTO s) (hOpen s) (hClose s) (hDrop s) (hPing s) (hPingTO s) v (timers s) (pingPending s) (pingSeq s) (closingSince s) (lastPeerClose s) (proxyPending s) (sst s) (inMsg s) (rxPartial s).
 Definition set_timers (v : list tentry) (s : cstate) : cstate :=
-  mkS (st s) (now s) (gone s) (closedByMe s) (failedByMe s) (droppedByMe s) (wasClean s) (ncr s) (localCode s) (localReason s) (remoteCode s) (remoteReason s) (wasOpenTO s) (wasCloseTO s) (wasDropTO s) (hOpen s) (hClose s) (hDrop s) (hPing s) (hPingTO s) (nextId s) v (pingPending s) (pingSeq s) (closingSince s) (lastPeerClose s) (proxyPending s).
+  mkS (st s) (now s) (gone s) (closedByMe s) (failedByMe s) (droppedByMe s) (wasClean s) (ncr s) (localCode s) (localReason s) (remoteCode s) (remoteReason s) (wasOpenTO s) (wasCloseTO s) (wasDropTO s) (hOpen s) (hClose s) (hDrop s) (hPing s) (hPingTO s) (nextId s) v (pingPending s) (pingSeq s) (closingSince s) (lastPeerClose s) (proxyPending s) (sst s) (inMsg s) (rxPartial s).
 Definition set_pingPending (v : option N) (s : cstate) : cstate :=
-  mkS (st s) (now s) (gone s) (closedByMe s) (failedByMe s) (droppedByMe s) (wasClean s) (ncr s) (localCode s) (localReason s) (remoteCode s) (remoteReason s) (wasOpenTO s) (wasCloseTO s) (wasDropTO s) (hOpen s) (hClose s) (hDrop s) (hPing s) (hPingTO s) (nextId s) (timers s) v (pingSeq s) (closingSince s) (lastPeerClose s) (proxyPending s).
+  mkS (st s) (now s) (gone s) (closedByMe s) (failedByMe s) (droppedByMe s) (wasClean s) (ncr s) (localCode s) (localReason s) (remoteCode s) (remoteReason s) (wasOpenTO s) (wasCloseTO s) (wasDropTO s) (hOpen s) (hClose s) (hDrop s) (hPing s) (hPingTO s) (nextId s) (timers s) v (pingSeq s) (closingSince s) (lastPeerClose s) (proxyPending s) (sst s) (inMsg s) (rxPartial s).
 Definition set_pingSeq (v : N) (s : cstate) : cstate :=
-  mkS (st s) (now s) (gone s) (closedByMe s) (failedByMe s) (droppedByMe s) (wasClean s) (ncr s) (localCode s) (localReason s) (remoteCode s) (remoteReason s) (wasOpenTO s) (wasCloseTO s) (wasDropTO s) (hOpen s) (hClose s) (hDrop s) (hPing s) (hPingTO s) (nextId s) (timers s) (pingPending s) v (closingSince s) (lastPeerClose s) (proxyPending s).
+  mkS (st s) (now s) (gone s) (closedByMe s) (failedByMe s) (droppedByMe s) (wasClean s) (ncr s) (localCode s) (localReason s) (remoteCode s) (remoteReason s) (wasOpenTO s) (wasCloseTO s) (wasDropTO s) (hOpen s) (hClose s) (hDrop s) (hPing s) (hPingTO s) (nextId s) (timers s) (pingPending s) v (closingSince s) (lastPeerClose s) (proxyPending s) (sst s) (inMsg s) (rxPartial s).
 Definition set_closingSince (v : option N) (s : cstate) : cstate :=
-  mkS (st s) (now s) (gone s) (closedByMe s) (failedByMe s) (droppedByMe s) (wasClean s) (ncr s) (localCode s) (localReason s) (remoteCode s) (remoteReason s) (wasOpenTO s) (wasCloseTO s) (wasDropTO s) (hOpen s) (hClose s) (hDrop s) (hPing s) (hPingTO s) (nextId s) (timers s) (pingPending s) (pingSeq s) v (lastPeerClose s) (proxyPending s).
+  mkS (st s) (now s) (gone s) (closedByMe s) (failedByMe s) (droppedByMe s) (wasClean s) (ncr s) (localCode s) (localReason s) (remoteCode s) (remoteReason s) (wasOpenTO s) (wasCloseTO s) (wasDropTO s) (hOpen s) (hClose s) (hDrop s) (hPing s) (hPingTO s) (nextId s) (timers s) (pingPending s) (pingSeq s) v (lastPeerClose s) (proxyPending s) (sst s) (inMsg s) (rxPartial s).
 Definition set_lastPeerClose (v : option peer_close) (s : cstate) : cstate :=
-  mkS (st s) (now s) (gone s) (closedByMe s) (failedByMe s) (droppedByMe s) (wasClean s) (ncr s) (localCode s) (localReason s) (remoteCode s) (remoteReason s) (wasOpenTO s) (wasCloseTO s) (wasDropTO s) (hOpen s) (hClose s) (hDrop s) (hPing s) (hPingTO s) (nextId s) (timers s) (pingPending s) (pingSeq s) (closingSince s) v (proxyPending s).
+  mkS (st s) (now s) (gone s) (closedByMe s) (failedByMe s) (droppedByMe s) (wasClean s) (ncr s) (localCode s) (localReason s) (remoteCode s) (remoteReason s) (wasOpenTO s) (wasCloseTO s) (wasDropTO s) (hOpen s) (hClose s) (hDrop s) (hPing s) (hPingTO s) (nextId s) (timers s) (pingPending s) (pingSeq s) (closingSince s) v (proxyPending s) (sst s) (inMsg s) (rxPartial s).
 Definition set_proxyPending (v : bool) (s : cstate) : cstate :=
-  mkS (st s) (now s) (gone s) (closedByMe s) (failedByMe s) (droppedByMe s) (wasClean s) (ncr s) (localCode s) (localReason s) (remoteCode s) (remoteReason s) (wasOpenTO s) (wasCloseTO s) (wasDropTO s) (hOpen s) (hClose s) (hDrop s) (hPing s) (hPingTO s) (nextId s) (timers s) (pingPending s) (pingSeq s) (closingSince s) (lastPeerClose s) v.
+  mkS (st s) (now s) (gone s) (closedByMe s) (failedByMe s) (droppedByMe s) (wasClean s) (ncr s) (localCode s) (localReason s) (remoteCode s) (remoteReason s) (wasOpenTO s) (wasCloseTO s) (wasDropTO s) (hOpen s) (hClose s) (hDrop s) (hPing s) (hPingTO s) (nextId s) (timers s) (pingPending s) (pingSeq s) (closingSince s) (lastPeerClose s) v (sst s) (inMsg s) (rxPartial s).
+Definition set_sst (v : sstate) (s : cstate) : cstate :=
+  mkS (st s) (now s) (gone s) (closedByMe s) (failedByMe s) (droppedByMe s) (wasClean s) (ncr s) (localCode s) (localReason s) (remoteCode s) (remoteReason s) (wasOpenTO s) (wasCloseTO s) (wasDropTO s) (hOpen s) (hClose s) (hDrop s) (hPing s) (hPingTO s) (nextId s) (timers s) (pingPending s) (pingSeq s) (closingSince s) (lastPeerClose s) (proxyPending s) v (inMsg s) (rxPartial s).
+Definition set_inMsg (v : bool) (s : cstate) : cstate :=
+  mkS (st s) (now s) (gone s) (closedByMe s) (failedByMe s) (droppedByMe s) (wasClean s) (ncr s) (localCode s) (localReason s) (remoteCode s) (remoteReason s) (wasOpenTO s) (wasCloseTO s) (wasDropTO s) (hOpen s) (hClose s) (hDrop s) (hPing s) (hPingTO s) (nextId s) (timers s) (pingPending s) (pingSeq s) (closingSince s) (lastPeerClose s) (proxyPending s) (sst s) v (rxPartial s).
+Definition set_rxPartial (v : bool) (s : cstate) : cstate :=
+  mkS (st s) (now s) (gone s) (closedByMe s) (failedByMe s) (droppedByMe s) (wasClean s) (ncr s) (localCode s) (localReason s) (remoteCode s) (remoteReason s) (wasOpenTO s) (wasCloseTO s) (wasDropTO s) (hOpen s) (hClose s) (hDrop s) (hPing s) (hPingTO s) (nextId s) (timers s) (pingPending s) (pingSeq s) (closingSince s) (lastPeerClose s) (proxyPending s) (sst s) (inMsg s) v.
 
 (* ---------- a small writer/state monad: every handler is a function cstate -> cstate * outputs ---------- *)
 Definition M := cstate -> cstate * list out.
@@ -519,11 +534,15 @@ Inductive event :=
 | EProxyBad                                    (* ... with anything else: failProxyConnect *)
 | ESendClose (code : option N) (reason : option (list N))    (* API sendClose(code, reason); reason = UTF-8 octets of the str *)
 | ESendMessage | ESendPing | ESendPong
+| EBeginMessage | ESendFrame | EEndMessage     (* streaming API: beginMessage(); sendMessageFrame(2 octets); endMessage() *)
 | EPeerClose (body : option (N * option (list N))) (txt : list N)
                                                (* close frame; [txt] = text of the internal failure reason should
                                                   the frame be rejected *)
 | EPeerClose1 (txt : list N)                   (* close frame with a 1-octet payload *)
 | EPeerData                                    (* complete unfragmented binary message *)
+| EPeerFrag (cont fin : bool)                  (* one data frame of a fragmented message: continuation? final? *)
+| EPeerHead                                    (* header and part of the payload of an unfragmented binary message ... *)
+| EPeerTail                                    (* ... and the rest of it *)
 | EPeerPing
 | EPeerPong (matching : bool)                  (* payload equal / not equal to the pending auto-ping payload *)
 | EPeerViolation (txt : list N)                (* control frame with reserved opcode 0xB, empty payload *)
@@ -553,11 +572,36 @@ Definition handshake_bad (c : cfg) : M :=
   upd (set_ncr RHandshake) ;;
   (if is_server c then say WHttp ;; drop_connection false else drop_connection true).
 
+(* protocol.py: onFrameEnd of a data frame: "if self.autoPingTimeoutCall and self.autoPingRestartOnAnyTraffic" for EVERY
+   data frame, final or not; a final one ends the message: onMessageEnd delivers it unless failedByMe *)
+Definition data_frame_end (c : cfg) (fin : bool) : M :=
+  restart_on_traffic c ;;
+  (if fin then ifS failedByMe ret (say CbMessage) ;; upd (set_inMsg false) else upd (set_inMsg true)).
+
+(* protocol.py: beginMessage / sendMessageFrame (= beginMessageFrame + sendMessageFrameData) / endMessage: all return
+   silently unless OPEN; beginMessage and beginMessageFrame raise in the wrong send_state, endMessage has no such check *)
+Definition begin_message : M :=
+  ifS (in_state OPEN)
+      (bindS (fun s => match sst s with SGround => upd (set_sst SBegin) | _ => say (Raised ExException) end)) ret.
+Definition send_message_frame : M :=
+  ifS (in_state OPEN)
+      (bindS (fun s => match sst s with
+                       | SGround => say (Raised ExException)
+                       | _ => say WHdr ;; say (WPayload 2) ;; upd (set_sst SInside)
+                       end)) ret.
+Definition end_message : M :=
+  ifS (in_state OPEN) (say WData ;; upd (set_sst SGround)) ret.
+
 Definition frames_flow (s : cstate) : bool :=     (* consumeData processes frames in OPEN and CLOSING only *)
   negb (gone s) && (wstate_eqb (st s) OPEN || wstate_eqb (st s) CLOSING).
 (* STATE_PROXY_CONNECTING is modelled as CONNECTING with [proxyPending] set: the two states differ only in what
    consumeData does with incoming octets (processProxyConnect / processHandshake); every other test in the code treats
    them alike (onOpenHandshakeTimeout, sendCloseFrame, _dataReceived, _send) *)
+(* a frame header + part of its payload has been read (current_frame set, payload incomplete): whatever octets come
+   next belong to that frame.  A new message may only start outside a fragmented one (inside_message). *)
+Definition frames_ready (s : cstate) : bool := frames_flow s && negb (rxPartial s).
+Definition msg_start (s : cstate) : bool := frames_ready s && negb (inMsg s).
+
 Definition connecting (s : cstate) : bool := negb (gone s) && wstate_eqb (st s) CONNECTING && negb (proxyPending s).
 Definition proxy_connecting (s : cstate) : bool := negb (gone s) && wstate_eqb (st s) CONNECTING && proxyPending s.
 
@@ -573,23 +617,29 @@ Definition handle (c : cfg) (e : event) : M :=
   | ESendMessage => send_message
   | ESendPing => send_ping None
   | ESendPong => send_pong
+  | EBeginMessage => begin_message
+  | ESendFrame => send_message_frame
+  | EEndMessage => end_message
   | EPeerClose body txt =>
-    ifS frames_flow (upd (set_lastPeerClose (Some (PC body))) ;; on_close_frame c body txt) ret
+    ifS frames_ready (upd (set_lastPeerClose (Some (PC body))) ;; on_close_frame c body txt) ret
   | EPeerClose1 txt =>
-    ifS frames_flow
+    ifS frames_ready
         (fail_connection c code_protocol_error txt ;;          (* header check in processData *)
          (* consumeData: "while self.processData() and self.state != STATE_CLOSED": the payload is only
             processed (-> onCloseFrame(None, None)) if the violation did not already close the connection *)
          (if failByDrop c then ret
           else ifS (in_state CLOSED) ret (upd (set_lastPeerClose (Some PC1)) ;; on_close_frame c None txt)))
         ret
-  | EPeerData =>
-    ifS frames_flow (restart_on_traffic c ;; ifS failedByMe ret (say CbMessage)) ret      (* onFrameEnd, onMessageEnd *)
-  | EPeerPing => ifS frames_flow (say CbPing ;; send_pong) ret
-  | EPeerPong m => ifS frames_flow (on_pong c m) ret
-  | EPeerViolation txt => ifS frames_flow (fail_connection c code_protocol_error txt) ret
+  | EPeerData => ifS msg_start (data_frame_end c true) ret
+  | EPeerFrag cont fin =>
+    ifS (fun s => frames_ready s && Bool.eqb cont (inMsg s)) (data_frame_end c fin) ret
+  | EPeerHead => ifS msg_start (upd (set_rxPartial true)) ret
+  | EPeerTail => ifS (fun s => frames_flow s && rxPartial s) (upd (set_rxPartial false) ;; data_frame_end c true) ret
+  | EPeerPing => ifS frames_ready (say CbPing ;; send_pong) ret
+  | EPeerPong m => ifS frames_ready (on_pong c m) ret
+  | EPeerViolation txt => ifS frames_ready (fail_connection c code_protocol_error txt) ret
   | EPeerInvalid txt =>
-    ifS frames_flow
+    ifS msg_start
         (fail_connection c code_invalid_payload txt ;;                       (* onFrameData *)
          (if failByDrop c then ret
           else restart_on_traffic c ;; fail_connection c code_invalid_payload txt))   (* onFrameEnd *)
@@ -604,7 +654,7 @@ Definition step (c : cfg) (s : cstate) (e : event) : cstate * list out := handle
 (* protocol.py: _connectionMade *)
 Definition init0 (c : cfg) : cstate :=
   mkS CONNECTING (t_start c) false false false false false RNone None None None None false false false
-      None None None None None 0 [] None 0 None None (negb (is_server c) && c_proxy c).
+      None None None None None 0 [] None 0 None None (negb (is_server c) && c_proxy c) SGround false false.
 Definition init (c : cfg) : cstate :=
   fst (whenM (0 <? openHandshakeTimeout c) (arm_batched TOpenHS (openHandshakeTimeout c)) (init0 c)).
 (* client _connectionMade: startHandshake writes the opening-handshake request (startProxyConnect: the CONNECT request) *)
